@@ -46,7 +46,7 @@ var timeouts = e2e.Timeouts{InputFlush: 5 * time.Millisecond, InterFlush: 8 * ti
 
 func buildCombos(c *vkit.Ctx) []Combo {
 	var out []Combo
-	states := []string{"healthy", "refusing", "resetting", "neverack", "blackhole", "acklate"}
+	states := []string{"healthy", "refusing", "resetting", "neverack", "blackhole", "acklate", "renewing"}
 	loads := []string{"idle", "mid-chunk", "window-full", "ack-queue-full", "big-chunks"}
 	stops := []int{0, 15, 90}
 	seeds := c.N(1, 3)
@@ -98,6 +98,11 @@ func scenarioOf(c *vkit.Ctx, cb Combo, idx int) e2e.Scenario {
 		many("blackhole", upstream.Step{})
 	case "acklate":
 		many("acklate", upstream.Step{DelayMs: 5000})
+	case "renewing":
+		// sessions reach upstream.maxDuration every 25 ms while their ACKs are still a quarter of a second away: at the stop a
+		// session is, most of the time, in the graceful end of its acknowledger (waiting for the outstanding ACKs)
+		many("acklate", upstream.Step{DelayMs: 250})
+		sc.MaxDurMs = 25
 	}
 	nrec, pad := 0, 0
 	switch cb.Load {
@@ -271,7 +276,7 @@ func runCombo(c *vkit.Ctx, attempt int) (again bool) {
 	}
 	inPhase := true
 	switch cb.State {
-	case "neverack", "acklate":
+	case "neverack", "acklate", "renewing":
 		inPhase = cb.Load == "idle" || unacked > 0
 	case "resetting":
 		inPhase = cb.Load == "idle" || len(g0.UpEvents["out1"]) > 1
@@ -344,7 +349,7 @@ func main() {
 		childMain(c)
 		c.Finish()
 	}
-	c.Rule("product of upstream state {healthy, refusing, resetting, never-ack, blackhole, late-ack} x load {idle, mid-chunk, window-full, ack-queue-full, big-chunks (writer blocked mid-write)} " +
+	c.Rule("product of upstream state {healthy, refusing, resetting, never-ack, blackhole, late-ack, renewing = late-ack with sessions reaching maxDuration every 25 ms} x load {idle, mid-chunk, window-full, ack-queue-full, big-chunks (writer blocked mid-write)} " +
 		"x stop delay {0, 15, 90 ms} x {no delay, 40 ms delay between connect and session registration}; quick samples one sixth of it; " +
 		"non-trivial = the upstream's log confirms the intended situation at the stop (unacknowledged chunks / resets seen); distinct = combination")
 	c.Assume("elapsed time is real time: verdict only if elapsed > bound + 10 s AND agent goroutines are parked in slog-agent code; elapsed in (bound, limit] is recorded, not judged")
